@@ -159,7 +159,7 @@ Definition fdesc_eqb (a b : fdesc) : bool :=
 Definition ckind_eqb (a b : ckind) : bool :=
   match a, b with
   | KData f x, KData g y => Bool.eqb f g && list_eqb fdesc_eqb x y
-  | KEnum x, KEnum y => list_eqb str_eqb x y
+  | KEnum x fx, KEnum y fy => list_eqb str_eqb x y && opt_eqb lZ_eqb fx fy
   | _, _ => false
   end.
 Definition cdesc_eqb (a b : cdesc) : bool := cref_eqb (c_ref a) (c_ref b) && ckind_eqb (c_kind a) (c_kind b).
